@@ -53,6 +53,25 @@ theorem parse_verdict_total (s : Schema) (o : ParseOpts) (text : String) :
     | bad m => exact .inr (.inl ⟨m, rfl, hc⟩)
     | unsupported w => exact .inr (.inr ⟨w, rfl, hc⟩)
 
+/-- non-vacuity: all three verdicts occur (with `Quirks.current`) -/
+example : (match parseRequest Lmd.C09.exSchema { optimize := true, q := Quirks.current } "GET hosts\nStats: sum latency" with
+      | .ok req => req.table == "hosts" && req.stats.length == 1 | .error _ => false) = true := by
+  unfold parseRequest
+  rw [Lmd.Headers.splitLines_eq]
+  decide
+
+example : (match parseRequest Lmd.C09.exSchema { optimize := true, q := Quirks.current } "GET hosts\nAnd: 1" with
+      | .error (.bad m) => m == "not enough filter on stack" | _ => false) = true := by
+  unfold parseRequest
+  rw [Lmd.Headers.splitLines_eq]
+  decide
+
+example : (match parseRequest Lmd.C09.exSchema { optimize := true, q := Quirks.current } "COMMAND [0] x" with
+      | .error (.unsupported w) => w == "command" | _ => false) = true := by
+  unfold parseRequest
+  rw [Lmd.Headers.splitLines_eq]
+  decide
+
 /-- Which header line gives which refusal, part 1: a line without a colon is refused with "syntax error",
     a line whose header word (the part before the first colon, lower case) is none of the 26 known headers
     is refused with "unrecognized header" — whatever the state of the request read so far. -/
@@ -85,8 +104,8 @@ theorem and_or_guarded (o : ParseOpts) (t : Table) (req : Request) (line hdr res
         parseHeaderLine o t req line = .error (.bad "not enough filter on stack")) ∧
       (0 < n → n ≤ (req.filter.length : Int) →
         parseHeaderLine o t req line = .ok { req with filter :=
-          req.filter.take (req.filter.length - n.toNat) ++
-            [Filter.grp isAnd (req.filter.drop (req.filter.length - n.toNat)) false] })) := by
+          (List.take (req.filter.length - n.toNat) req.filter ++
+            [Filter.grp isAnd (List.drop (req.filter.length - n.toNat) req.filter) false]) })) := by
   have hline : parseHeaderLine o t req line =
       (groupOp isAnd (trimLeftSpaces rest) req.filter).map (fun f => { req with filter := f }) := by
     cases isAnd
@@ -103,6 +122,11 @@ theorem and_or_guarded (o : ParseOpts) (t : Table) (req : Request) (line hdr res
 example : parseHeaderLine { optimize := true, q := Quirks.current } Lmd.C09.exHosts {} "And: 2"
       = .error (.bad "not enough filter on stack") :=
   ((and_or_guarded _ _ _ "And: 2" "And" " 2" true (by decide) (by decide)).2 2 (by decide)).2.2.1 (by decide)
+
+example : (match parseHeaderLine { optimize := true, q := Quirks.current } Lmd.C09.exHosts {} "Or: 0" with
+      | .ok r => r.filter.length == 0 | .error _ => false) = true
+    ∧ (match parseHeaderLine { optimize := true, q := Quirks.current } Lmd.C09.exHosts {} "And: x" with
+      | .error (.bad m) => m == "must be a positive number" | _ => false) = true := by decide
 
 /-- Which header line gives which refusal, part 3: `Negate:` with no filter on the stack and `StatsNegate:`
     with no stats entry on the stack are refused with "no filter/stats on stack to negate"; with a
@@ -184,6 +208,13 @@ theorem first_refused_line_decides (o : ParseOpts) (t : Table) (req : Request) :
       parseHeaderLines o t req (pre ++ line :: rest) = .error e) :=
   ⟨fun line rest h => parseHeaderLines_blank o t req line rest h,
    fun pre req' line rest e hne hok hl he => parseHeaderLines_first_error o t pre req req' line rest e hne hok hl he⟩
+
+example : (match parseHeaderLines { optimize := true, q := Quirks.current } Lmd.C09.exHosts {}
+        ["Limit: 3", "Negate:", "Limit: 5"] with
+      | .error (.bad m) => m == "no filter/stats on stack to negate" | _ => false) = true
+    ∧ (match parseHeaderLines { optimize := true, q := Quirks.current } Lmd.C09.exHosts {}
+        ["Limit: 3", "  ", "Negate:"] with
+      | .ok r => r.limit == some 3 | _ => false) = true := by decide
 
 /-! ## 2. evaluation of an accepted request -/
 
@@ -277,6 +308,10 @@ example : (∀ c ∈ Lmd.C09.exHosts.cols, ColOK Lmd.C09.exSchema Lmd.C09.exHost
       (simp only [List.mem_cons, List.not_mem_nil, or_false] at hc
        rcases hc with rfl | rfl <;> simp)
 
+example : isCrash (getVal { schema := { tables := [] }, ds := { backends := [] }, b := { id := "a", name := "a" } }
+      { name := "hosts", cols := [] } { cells := [] } { name := "lmd_version", dtype := .str, storage := .virt }) = true := by
+  decide
+
 /-! ## 3. backend replies -/
 
 /-- For every backend reply — any JSON value per cell (string where a number is expected, nested arrays,
@@ -310,6 +345,14 @@ theorem synced_query_no_crash (s : Schema) (o : ParseOpts) (text : String) (req 
       getVal { schema := s, ds := ds, b := h.b } t h.r c ≠ .crash w) :=
   query_no_crash s o text req t ds hp ht hcols (synced_dataset_clean s ds hsync)
 
+/-- non-vacuity: a reply row that is too short, has a string for the number, a boolean for the string, a
+    cell for an unknown column and a repeated cell is stored and read back: the number reads 0, the missing cell reads "" -/
+example : (syncTable Lmd.C09.exHosts [[("latency", Json.str "abc"), ("nosuch", Json.null)],
+                                       [("name", Json.bool true), ("latency", Json.num 2), ("name", Json.null)]]).map
+      (fun r => ((localVal Lmd.C09.exHosts r (Lmd.C09.exHosts.colWithFallback "name")).asString,
+                 (localVal Lmd.C09.exHosts r (Lmd.C09.exHosts.colWithFallback "latency")).asString))
+    = [("", "0"), ("true", "2")] := by decide
+
 /-! ## 4. regular expressions -/
 
 /-- The compiler is total: for every pattern it returns a program, `invalid` (Go's `regexp.Compile` fails as
@@ -341,6 +384,18 @@ theorem regex_unbalanced (pat : String) (c : Char) (rest : List Char) (h : pat.t
    fun hc => compileRegex_quant pat c rest h hc,
    fun hc hr r => compileRegex_unclosed pat rest (by rw [h, hc]) hr r⟩
 
+/-- non-vacuity, and the unclosed group: `(`, `(a`, `a)`, `[a`, `*a`, `a**` are invalid; `a{2}` is outside
+    the modelled syntax; `a|b` compiles -/
+example : (match compileRegex "(" with | .invalid => true | _ => false) = true
+    ∧ (match compileRegex "(a" with | .invalid => true | _ => false) = true
+    ∧ (match compileRegex "a)" with | .invalid => true | _ => false) = true
+    ∧ (match compileRegex "[a" with | .invalid => true | _ => false) = true
+    ∧ (match compileRegex "*a" with | .invalid => true | _ => false) = true
+    ∧ (match compileRegex "a**" with | .invalid => true | _ => false) = true
+    ∧ (match compileRegex "a{2}" with | .unsupported => true | _ => false) = true
+    ∧ (match compileRegex "a|b" with | .ok r => r.matches "xbx" && !r.matches "xyz" | _ => false) = true := by
+  decide
+
 /-- A filter is accepted only with a compiled program: for every table, every parser option and every
     `Filter:` value, a leaf the parser accepts whose operator is one of `~`, `!~`, `~~`, `!~~` (after the
     optimiser's rewriting) carries the program the compiler returned for some pattern.  And when the parser
@@ -352,6 +407,12 @@ theorem regex_filter_compiled (o : ParseOpts) (t : Table) (value : String) :
     (∀ opt l sd m, setRegexFilter opt l sd = .error (.bad m) →
       m = "invalid regular expression" ∧ ∃ pat, compileRegex pat = .invalid) :=
   ⟨fun l h hop => parseFilterLeaf_ok o t value l h hop, fun opt l sd m h => setRegexFilter_bad opt l sd m h⟩
+
+/-- non-vacuity: a pattern the compiler rejects as `invalid` exists for every continuation (the leaf-level
+    instances are the lines `Filter: name ~ (` and `Filter: name ~ [a`; the compiler's verdicts on these
+    patterns are evaluated in the example above) -/
+example (rest : String) : compileRegex (String.ofList (')' :: rest.toList)) = .invalid :=
+  compileRegex_close _ rest.toList (by simp)
 
 /-! ## 5. sessions -/
 
